@@ -77,8 +77,10 @@ def run(ctx):
             if g.key == "BlsSignCrypt::unseal":
                 # unmasking scalar selected by the same flag
                 ua = strip_sites(s.args[1])
-                cs = [x for x in subterms(ua) if x.op == "call" and B.cname(x) == "ConditionallySelectable::conditional_select"]
-                okc = bool(cs) and strip_sites(cs[0].a[1][2]) == fl and B.peel(cs[0].a[1][1]).op == "param" and B.peel(cs[0].a[1][1]).a[1] == "sk" and any(x.op in ("assoc", "named") and x.a[0].endswith("ZERO") for x in subterms(cs[0].a[1][0]))
+                # conditional_select(ZERO, sk, valid), or `let mut e = ZERO; e.conditional_assign(sk, valid)`
+                cs = [x.a[1] for x in subterms(ua) if x.op == "call" and B.cname(x) == "ConditionallySelectable::conditional_select" and len(x.a[1]) == 3]
+                cs += [x.a[2] for x in subterms(ua) if x.op == "mutcall" and B.cname(x) == "ConditionallySelectable::conditional_assign" and x.a[1] == 0 and len(x.a[2]) == 3]
+                okc = bool(cs) and strip_sites(cs[0][2]) == fl and B.peel(cs[0][1]).op == "param" and B.peel(cs[0][1]).a[1] == "sk" and any(x.op in ("assoc", "named") and x.a[0].endswith("ZERO") for x in subterms(cs[0][0]))
                 mul_u = ua.op == "call" and B.cname(ua) == "Mul::mul" and B.peel(ua.a[1][0]) == u
                 ctx.ob("E6.flag", "BlsSignCrypt::unseal/select", okc and mul_u, "unmasking point = u * conditional_select(ZERO, sk, valid): the key is used only when the ciphertext is valid", where=where(g, bb))
     # wrappers hand their own fields
